@@ -182,6 +182,9 @@ structure Ctx where
   depth : Nat        -- evm.depth while the ops of this frame run (0 = the transaction level)
 
 structure Env where
+  /-- precompiled contracts (`run` in evm.go looks at the code address first): required gas and output.
+      The harness only calls them with empty input, so both are constants per address. -/
+  precompile : Addr → Option (Nat × Bytes)
   maxDepth : Nat                          -- params.CallCreateDepth
   createAddr : Addr → Nat → Addr          -- crypto.CreateAddress
   create2Addr : Addr → Nat → Nat → Addr   -- crypto.CreateAddress2 (sender, salt, keccak(initcode))
@@ -275,6 +278,17 @@ def calleeCtx (ctx : Ctx) (kind : Kind) (addr : Addr) : Ctx :=
   { self := if kind = .call ∨ kind = .static then addr else ctx.self,
     static := ctx.static || kind == .static, depth := ctx.depth + 1 }
 
+/-- RunPrecompiledContract: pay the required gas or fail with out-of-gas; no state access. -/
+def runPrecompile (g : Nat) (out : Bytes) (gas : Nat) (w : World) (tr : List Ev) : Res :=
+  if gas < g then ⟨w, gas, .err .oog, tr⟩ else ⟨w, gas - g, .ok out, tr⟩
+
+/-- `run(evm, contract, input, readOnly)`: precompile, or nothing when there is no code, or the interpreter. -/
+def calleeRes (env : Env) (cctx : Ctx) (addr : Addr) (gas : Nat) (w1 : World) (tr : List Ev)
+    (run : Ctx → Nat → World → List Ev → Res) : Res :=
+  match env.precompile addr with
+  | some (g, out) => runPrecompile g out gas w1 tr
+  | none => if w1.codeOf addr = [] then ⟨w1, gas, .ok [], tr⟩ else run cctx gas w1 tr
+
 /-- evm.Call / CallCode / DelegateCall / StaticCall with `gas` handed to the callee.
     `run` executes the callee's body (the code found at `addr`); it is not entered when there is no code. -/
 def enterCall (env : Env) (ctx : Ctx) (kind : Kind) (addr : Addr) (value gas : Nat) (w : World) (tr : List Ev)
@@ -283,8 +297,7 @@ def enterCall (env : Env) (ctx : Ctx) (kind : Kind) (addr : Addr) (value gas : N
   else if (kind = .call ∨ kind = .callcode) ∧ w.balOf ctx.self < value then ⟨w, gas, .err .balance, tr⟩
   else
     -- snapshot = w
-    callExit w (if (callWorld ctx kind addr value w).codeOf addr = [] then ⟨callWorld ctx kind addr value w, gas, .ok [], tr⟩
-                else run (calleeCtx ctx kind addr) gas (callWorld ctx kind addr value w) tr)
+    callExit w (calleeRes env (calleeCtx ctx kind addr) addr gas (callWorld ctx kind addr value w) tr run)
 
 /-- The end of evm.create: code-size limit, code deposit, SetCode; on failure back to the snapshot taken after
     the creator's nonce bump. -/
